@@ -173,7 +173,11 @@ func convertRef(f shellfuncsfile.Filter, name string, content []byte, what strin
 		return part{}, err
 	}
 	if len(b) == 0 {
-		return part{emptyOK: true, what: what}, nil
+		// An empty conversion contributes nothing: built from that file alone
+		// the payload "is that file's converted content", and a terminator is
+		// only owed to a part that has something to terminate.  (Until round 8
+		// of the seeded defects an empty part was allowed to be "" or "\n".)
+		return part{what: what + " (empty)"}, nil
 	}
 	if b[len(b)-1] != '\n' {
 		b = append(b, '\n')
@@ -201,7 +205,7 @@ func expected(dirs []string, c C17Case, table map[string]shellfuncsfile.Filter) 
 				parts = append(parts, pt)
 				stats["single-matching"]++
 			} else {
-				parts = append(parts, part{data: content, emptyOK: len(content) == 0, what: "single unmatched " + s.File})
+				parts = append(parts, part{data: content, what: "single unmatched " + s.File})
 				stats["single-unmatched"]++
 			}
 			continue
